@@ -172,6 +172,12 @@ def execute(initial, events, args, pos_rng_seed, per_file, nthreads=2):
                 ws.write(ev[1], ev[2])
                 disk[ev[1]] = ev[2]
                 srv.did_open(ws.uri(ev[1]), ev[2])
+            elif ev[0] == "query":
+                # the user looks at things in between: answers are discarded, but caches get filled
+                f_, ln_, col_ = ev[1], ev[2], ev[3]
+                pp_ = {"textDocument": {"uri": ws.uri(f_)}, "position": {"line": ln_, "character": col_}}
+                for m_ in ("textDocument/completion", "textDocument/hover", "textDocument/definition", "textDocument/signatureHelp"):
+                    srv.request(m_, pp_)
             elif ev[0] == "delete":
                 if os.path.exists(ws.path(ev[1])):
                     os.remove(ws.path(ev[1]))
@@ -242,6 +248,17 @@ def run_case(ctx, i, rng):
     nedit = 0
     for step in range(nev):
         srcs = sorted(f for f in disk if f.endswith((".f90", ".F90")))
+        if rng.random() < 0.5 and srcs:
+            # queries in between (member accesses preferred): they populate per-object caches with the current versions
+            for _ in range(rng.randint(1, 6)):
+                qf = rng.choice(srcs)
+                qt = buf.get(qf, disk[qf]).split("\n")
+                cand = [(ln, m.end()) for ln, l in enumerate(qt) for m in re.finditer(r"%", l.split("!")[0])]
+                if not cand or rng.random() < 0.3:
+                    cand = [(ln, m.start() + 1) for ln, l in enumerate(qt) for m in re.finditer(r"[A-Za-z_]\w*", l.split("!")[0])]
+                if cand:
+                    ln, col = rng.choice(cand)
+                    events.append(("query", qf, ln, col))
         r = rng.random()
         if r < 0.18 and srcs:
             f = rng.choice(srcs)
